@@ -3,11 +3,14 @@
 //! carrying an RFC 6492 request LIMIT, as a non-krill child would send it.
 //!
 //!   limreq <parent> <child> <class> <limit atoms>
+//!   revreq <parent> <child> <class named in the request> <parent class the key is in use in>
 //!
 //! builds an issuance request for the key `<child>` already has in use at `<parent>` (CSR signed
 //! with that key, limit = the given atoms in all three families), wraps it in a CMS signed with
 //! the child's identity key and hands the bytes to the parent's real entry point
-//! (`CaManager::rfc6492`). `ret` is `reply:<payload type>` / `reply:error:<code>` / `err:<Variant>`.
+//! (`CaManager::rfc6492`). `revreq` sends an RFC 6492 revocation request of the child that names
+//! one class for the key it has in use in ANOTHER class of the parent (a krill child never does).
+//! `ret` is `reply:<payload type>` / `reply:error:<code>` / `err:<Variant>`.
 //! Used for the replay corpus/system-findings-limit/*.ops (C02 convergence with a limited
 //! grandchild certificate); it is not part of any check's generated streams.
 
@@ -58,6 +61,32 @@ fn limreq(s: &Sys, parent: &str, child: &str, class: &str, atoms: &str) -> Resul
     })
 }
 
+fn revreq(s: &Sys, parent: &str, child: &str, class: &str, key_class: &str) -> Result<String, Error> {
+    let cm = s.krill.ca_manager();
+    let ph = CaHandle::from_str(parent).unwrap();
+    let ch = CaHandle::from_str(child).unwrap();
+    let pca = cm.get_ca(&ph)?;
+    let cca = cm.get_ca(&ch)?;
+    let details = pca.get_child(&ChildHandle::from_str(child).unwrap())?;
+    let want = ResourceClassName::from(key_class);
+    let ki = details.used_keys.iter()
+        .filter(|(_, st)| matches!(st, UsedKeyState::InUse(rcn) if rcn == &want))
+        .map(|(k, _)| *k).next().ok_or_else(|| Error::custom("child has no key in use in that class"))?;
+    let msg = provisioning::Message::revoke(
+        idexchange::SenderHandle::from_str(child).unwrap(),
+        idexchange::RecipientHandle::from_str(parent).unwrap(),
+        provisioning::RevocationRequest::new(ResourceClassName::from(class), ki),
+    );
+    let idkey = cca.id_cert().public_key.key_identifier();
+    let cms = s.krill.signer().create_rfc6492_cms(msg, &idkey).map_err(Error::signer)?;
+    let reply = cm.rfc6492(&ph, cms.to_bytes(), None, &s.actor, s.krill.runtime())?;
+    let reply = ProvisioningCms::decode(&reply).map_err(|e| Error::custom(format!("reply: {e}")))?;
+    Ok(match reply.into_message().into_payload() {
+        provisioning::Payload::ErrorResponse(e) => format!("reply:error:{}", e.status()),
+        p => format!("reply:{}", p.payload_type()),
+    })
+}
+
 fn err_kind(e: &Error) -> String {
     let d = format!("{e:?}");
     let end = d.find(|c: char| !(c.is_ascii_alphanumeric() || c == '_')).unwrap_or(d.len());
@@ -86,8 +115,13 @@ fn main() {
         let mut s = Sys::new(&id, &cfg);
         for op in ops {
             let w: Vec<&str> = op.split_whitespace().collect();
-            if let ["limreq", parent, child, class, atoms] = w[..] {
-                let ret = match limreq(&s, parent, child, class, atoms) {
+            let special = match w[..] {
+                ["limreq", parent, child, class, atoms] => Some(limreq(&s, parent, child, class, atoms)),
+                ["revreq", parent, child, class, key_class] => Some(revreq(&s, parent, child, class, key_class)),
+                _ => None,
+            };
+            if let Some(res) = special {
+                let ret = match res {
                     Ok(r) => r,
                     Err(e) => format!("err:{}", err_kind(&e)),
                 };
